@@ -176,9 +176,9 @@ class Checker:
         tree = ast.parse(src)
         try:
             impl = fe.flat_lines(self.fa.flatten_ast(tree))
-        except RecursionError:
-            raise
         except Exception as exc:
+            if isinstance(exc, RecursionError) and fe.tree_depth(tree) > 60:
+                raise  # a genuinely deep tree: not a case
             # the implementation raised on a parsable program: a one-line pseudo-output, so that the case is compared (and
             # fails), attributed, minimised and replayed like any other difference
             impl = [f"<flatten_ast raised {type(exc).__name__}: {exc}>"]
